@@ -154,6 +154,14 @@ def lemma(fn):
     return fn
 
 
+def inline(fn):
+    """A sidecar helper whose body is inlined symbolically (like a transparent real function)."""
+    mod = _sidecar_of(fn)
+    node = _module_funcdefs(mod)[fn.__name__]
+    fn.__pyvc_inline__ = (node, mod)
+    return fn
+
+
 def specfun(fn):
     mod = _sidecar_of(fn)
     node = _module_funcdefs(mod)[fn.__name__]
